@@ -3,6 +3,7 @@
 #include "simrandom.h"
 #include <algorithm>
 #include <cerrno>
+#include <cstdarg>
 #include <cstdio>
 #include <cstdlib>
 #include <cstring>
@@ -23,6 +24,9 @@ ssize_t __real_read(int, void *, size_t);
 ssize_t __real_write(int, const void *, size_t);
 ssize_t __real_writev(int, const struct iovec *, int);
 time_t __real_time(time_t *);
+int __real_open(const char *, int, ...);
+int __real_open64(const char *, int, ...);
+int __real_close(int);
 }
 #endif
 
@@ -30,7 +34,7 @@ namespace sim {
 namespace fs {
 
 namespace {
-struct FdState { std::string path; bool writing = false; };
+struct FdState { std::string path; bool writing = false; bool positional = false; size_t off = 0; };
 struct State
 {
   std::map<std::string, std::string> files;
@@ -45,7 +49,7 @@ struct State
   i64 time_calls = 0;
   std::string real_root;
 };
-State & S() { static State s; return s; }
+State & S() { static State * s = new State; return *s; } // never destroyed: close() is wrapped and runs during exit too
 } // namespace
 
 #ifdef SIM_HAVE_FS_SEAM
@@ -192,7 +196,8 @@ static ssize_t sim_write(int fd, const char * buf, size_t n, FdState & st)
   if (w <= 0) return w;
   std::string & data = s.files[st.path];
   // kill points strictly inside this write: a prefix of the bytes has reached the kernel
-  if (s.observer && s.faults.interior_cuts > 0 && w > 1) {
+  if (s.observer && s.faults.interior_cuts > 0 && w > 1 && (!st.positional || st.off >= data.size())) {
+    if (st.positional && st.off > data.size()) data.resize(st.off, '\0');
     size_t base = data.size();
     std::vector<size_t> cuts;
     for (int k = 0; k < s.faults.interior_cuts; k++) cuts.push_back(1 + (size_t)(hmix(s.faults.cut_key, hmix((u64)call, (u64)k)) % (u64)(w - 1)));
@@ -206,7 +211,14 @@ static ssize_t sim_write(int fd, const char * buf, size_t n, FdState & st)
     }
     data.resize(base);
   }
-  data.append(buf, (size_t)w);
+  if (!st.positional) data.append(buf, (size_t)w);
+  else {
+    // descriptor from open(2) without O_TRUNC: bytes land at the descriptor's offset, what lies behind them stays
+    if (st.off > data.size()) data.resize(st.off, '\0');
+    size_t over = std::min((size_t)w, data.size() - st.off);
+    data.replace(st.off, over, buf, (size_t)w);
+    st.off += (size_t)w;
+  }
   s.bytes_budget_used += w;
   s.stats.bytes_written += w;
   if (s.observer) { s.stats.crash_points++; s.observer(); }
@@ -237,6 +249,55 @@ int __wrap_fclose(FILE * f)
 {
   if (f) { int fd = fileno(f); S().fds.erase(fd); }
   return __real_fclose(f);
+}
+static int sim_open_fd(const char * path, int flags, bool & handled)
+{
+  handled = false;
+  if (!is_sim_path(path)) return -1;
+  handled = true;
+  State & s = S();
+  s.stats.opens++;
+  auto fe = s.faults.open_errno.find(path);
+  if (fe != s.faults.open_errno.end()) { s.stats.open_failed++; errno = fe->second; return -1; }
+  bool have = s.files.count(path) != 0;
+  if (!have && !(flags & O_CREAT)) { s.stats.open_failed++; errno = ENOENT; return -1; }
+  if (have && (flags & O_CREAT) && (flags & O_EXCL)) { s.stats.open_failed++; errno = EEXIST; return -1; }
+  bool writing = (flags & O_ACCMODE) != O_RDONLY;
+  int fd = memfd_create("simfs", 0);
+  if (fd < 0) { errno = EMFILE; return -1; }
+  if (writing && (flags & O_TRUNC)) {
+    bool existed = have && !s.files[path].empty();
+    s.files[path] = "";
+    if (existed && s.observer) { s.stats.crash_points++; s.observer(); }
+  } else if (!have) s.files[path] = "";
+  const std::string & d = s.files[path];
+  size_t off = 0;
+  while (off < d.size()) { ssize_t w = __real_write(fd, d.data() + off, d.size() - off); if (w <= 0) break; off += (size_t)w; }
+  FdState st; st.path = path; st.writing = writing; st.positional = true;
+  st.off = (flags & O_APPEND) ? d.size() : 0;
+  lseek(fd, (off_t)st.off, SEEK_SET);
+  s.fds[fd] = st;
+  return fd;
+}
+int __wrap_open(const char * path, int flags, ...)
+{
+  mode_t mode = 0;
+  if (flags & (O_CREAT | O_TMPFILE)) { va_list ap; va_start(ap, flags); mode = (mode_t)va_arg(ap, int); va_end(ap); }
+  bool handled; int fd = sim_open_fd(path, flags, handled);
+  return handled ? fd : __real_open(path, flags, mode);
+}
+int __wrap_open64(const char * path, int flags, ...)
+{
+  mode_t mode = 0;
+  if (flags & (O_CREAT | O_TMPFILE)) { va_list ap; va_start(ap, flags); mode = (mode_t)va_arg(ap, int); va_end(ap); }
+  bool handled; int fd = sim_open_fd(path, flags, handled);
+  return handled ? fd : __real_open64(path, flags, mode);
+}
+int __wrap_close(int fd)
+{
+  State & s = S();
+  if (!s.fds.empty()) s.fds.erase(fd);
+  return __real_close(fd);
 }
 ssize_t __wrap_read(int fd, void * buf, size_t n)
 {
